@@ -200,6 +200,11 @@ func vfVLTypes() []vfVLType {
 			v[e] = make([]float32, l)
 			for j := range v[e] {
 				v[e][j] = float32(e) + float32(j)/8
+				// every fourth value is a bit pattern with a meaning of its own: signalling and
+				// quiet NaNs with payloads, -0, the smallest subnormal, infinity
+				if j%4 == 1 {
+					v[e][j] = math.Float32frombits([]uint32{0x7fa00000, 0x7f800001, 0xffbfffff, 0x7fc00001, 0x80000000, 0x00000001, 0xff800000}[(e+j/4)%7])
+				}
 				raw[e] = binary.LittleEndian.AppendUint32(raw[e], math.Float32bits(v[e][j]))
 			}
 		}
@@ -212,6 +217,9 @@ func vfVLTypes() []vfVLType {
 			v[e] = make([]float64, l)
 			for j := range v[e] {
 				v[e][j] = float64(e) + float64(j)/8
+				if j%4 == 1 {
+					v[e][j] = math.Float64frombits([]uint64{0x7ff4000000000000, 0x7ff0000000000001, 0xfff7ffffffffffff, 0x7ff8000000000001, 0x8000000000000000, 0x0000000000000001, 0xfff0000000000000}[(e+j/4)%7])
+				}
 				raw[e] = binary.LittleEndian.AppendUint64(raw[e], math.Float64bits(v[e][j]))
 			}
 		}
